@@ -10,7 +10,8 @@ MANIFEST = dict(
          "running random define/create/scan sequences through the real compiler/rules/scanner API and the compiled Lean model and diffing every op's result.",
     design_ref="DESIGN.md §5 C20",
     note=core.TB + "Assumes small integer/dyadic values (no int64 wrap, no IEEE rounding); a variable is observed through probe conditions only.")
-NAMES = ["x", "y", "z", "w"]
+NAMES = ["x", "xy", "y", "yx", "z"]          # prefixes of each other on purpose
+UNKNOWN = ["q", "xyz", "yxx", "zz", "xx"]       # never declared; some extend / are extended by declared names
 VALS = {"i": ["-1", "0", "1", "2", "7", "4"], "b": ["0", "1", "5"], "f": ["-1", "0", "1", "3", "4"],
         "s": ["-", "61", "6162", "6261", "616263", "42", "63"]}
 
@@ -27,7 +28,7 @@ def gen_case(r, cid):
     alive = set()
 
     def define(level):
-        n = r.choice(list(declared) * 3 + ["q"])
+        n = r.choice(list(declared) * 3 + [r.choice(UNKNOWN)])
         u = r.random()
         if n in declared and u < 0.7:
             t = declared[n]
@@ -76,6 +77,64 @@ def nontrivial(case, out):
         and case.count("screate") >= 1 and any(o.startswith("sdef") for o in case.split())
 
 
+CLI_VALUES = ["0", "1", "-1", "5", "007", "-0", "2147483647", "2147483648", "-2147483649", "4294967296", "5000000000", "9223372036854775807",
+              "1.5", "-2.5", "0.25", "1.", "-1.", "10.0", ".5", "-.5", "1.2.3", "10.0.0.1", "1..2", "-", "--1", "1-", "+1", "1e5", "0x10", "1,5",
+              "true", "false", "True", "TRUE", "truee", "abc", "a.b", "3a", "a3", " 1", "1 ", "my string", "", ".", "-.", "..", "1.2.", "12:30"]
+
+
+def esc_yara(sv):
+    return "".join("\\x%02x" % b for b in sv.encode("latin1"))
+
+
+def run_cli(chk, tier, r):
+    """cli/common.c: how `-d name=value` is typed and what value the rules see, against Spec/ExtCli.classify"""
+    import subprocess, os
+    b = core.build("plain", cli=True)
+    vals = list(CLI_VALUES)
+    for _ in range(40 if tier == "quick" else 1500):
+        n = r.randint(1, 6)
+        vals.append("".join(r.choice("0123456789.-") if r.random() < 0.85 else r.choice("aetru +x") for _ in range(n)))
+    vals = list(dict.fromkeys(vals))
+    lines = ["v%d v=%s" % (i, ("".join("%02x" % ord(c) for c in v) or "-")) for i, v in enumerate(vals)]
+    model, _, _ = core.run_lines([core.driver_path(), "extcli"], lines)
+    mm = {l.split()[0]: l.split()[1] for l in model if len(l.split()) > 1}
+    d = os.path.join(core.OUT, "C20", "cli")
+    os.makedirs(d, exist_ok=True)
+    data = os.path.join(d, "data.bin")
+    open(data, "w").write("xyz")
+    nviol, hist = 0, {}
+    for i, v in enumerate(vals):
+        cls = mm.get("v%d" % i, "?")
+        kind = cls.split(":")[0]
+        hist[kind] = hist.get(kind, 0) + 1
+        if kind == "int":
+            n = int(cls[4:])
+            if not (-2 ** 63 <= n < 2 ** 63):
+                continue
+            cond = "v == %d" % n if n >= 0 else "v == -%d" % (-n) if n != -2 ** 63 else "v == (-9223372036854775807 - 1)"
+        elif kind == "flt":
+            num, sc = cls[4:].split("/")
+            f = int(num) / (10 ** int(sc))
+            cond = "v > %.9f and v < %.9f" % (f - 1e-6, f + 1e-6) if f >= 0 else "v > -%.9f and v < -%.9f" % (-f + 1e-6, -f - 1e-6)
+        elif kind == "bool":
+            cond = "v" if cls.endswith("1") else "not v"
+        elif kind == "str":
+            cond = 'v == "%s"' % esc_yara(v)
+        else:
+            continue
+        rf = os.path.join(d, "r%d.yar" % i)
+        open(rf, "w").write("rule t { condition: %s }\n" % cond)
+        p = subprocess.run([b["yara"], "-d", "v=" + v, rf, data], capture_output=True, text=True, timeout=30)
+        ok = p.returncode == 0 and p.stdout.split()[:1] == ["t"]
+        if not ok and nviol < 6:
+            chk.violation("cli_%d.json" % nviol, {"kind": "command-line external variable is not typed / valued like the literal it spells", "engine": "extcli",
+                                                  "value": v, "expected_class": cls, "rule": "rule t { condition: %s }" % cond,
+                                                  "argv": ["yara", "-d", "v=" + v, "<rule>", "<3-byte file>"], "rc": p.returncode, "stdout": p.stdout[-300:], "stderr": p.stderr[-300:]})
+            nviol += 1
+    chk.cov["cli_typing"] = {"values": len(vals), "classes": hist, "violations": nviol}
+    return nviol > 0
+
+
 def run(tier, replay=None):
     chk = core.Check("C20", tier)
     lres = core.lean_check(THM)
@@ -107,6 +166,8 @@ def run(tier, replay=None):
                                 "non-trivial = >=2 distinct observations, >=1 rejected definition, >=1 scanner-level definition",
                         "ops_total": sum(len(c.split()) - 1 for c in cases),
                         "samples": [{"case": cases[0], "implementation": impl[0] if impl else None, "model": model[0] if model else None}]})
+    if lres.get("driver_ok") and not replay:
+        found = run_cli(chk, tier, r) or found
     core.handle_broken_proof(chk, lres, found)
     chk.assumptions += ["values stay in a small range: int64 wrap-around and IEEE rounding are outside the model",
                         "probe rules observe a variable only through 3-7 conditions per type",
